@@ -14,6 +14,8 @@ def main(argv):
     ap.add_argument("--replay")
     ap.add_argument("--runs", type=int, default=None)
     ap.add_argument("--jobs", type=int, default=None)
+    ap.add_argument("--digests", action="store_true",
+                    help="print one line of digests per run and exit (determinism self-test)")
     args = ap.parse_args(argv)
     try:
         if args.replay:
@@ -28,6 +30,13 @@ def main(argv):
             world.runs(args.property, args.tier)
         jobs = args.jobs or int(os.environ.get("VERIF_JOBS", "0") or 0) or \
             min(16, os.cpu_count() or 1)
+        if args.digests:
+            for r in runner.run_batch(world, args.property, seed, n, jobs):
+                v = r.get("violation")
+                print(r["i"], r.get("seed"), r["status"], r.get("config_digest"),
+                      r.get("ops_digest"), r.get("digest"),
+                      (v or {}).get("class"), (v or {}).get("cycle"))
+            return 0
         return runner.check(world, args.property, args.tier, seed, n, jobs)
     except HarnessError as e:
         print(f"HARNESS ERROR: {e}", file=sys.stderr)
